@@ -10,6 +10,7 @@ import (
 	"time"
 
 	"github.com/cilium/statedb/index"
+	"github.com/cilium/statedb/internal/simhook"
 	"golang.org/x/time/rate"
 )
 
@@ -21,6 +22,7 @@ const (
 func graveyardWorker(db *DB, ctx context.Context, gcRateLimitInterval time.Duration) {
 	limiter := rate.NewLimiter(rate.Every(gcRateLimitInterval), 1)
 	defer close(db.gcExited)
+	simhook.Yield("gc.start")
 
 	for {
 		select {
@@ -34,6 +36,7 @@ func graveyardWorker(db *DB, ctx context.Context, gcRateLimitInterval time.Durat
 			return
 		}
 
+		simhook.Yield("gc.triggered")
 		cleaningTimes := make(map[string]time.Duration)
 
 		toBeDeleted := map[TableMeta][]index.Key{}
@@ -84,6 +87,7 @@ func graveyardWorker(db *DB, ctx context.Context, gcRateLimitInterval time.Durat
 		}
 
 		// Dead objects found, do a write transaction against all tables with dead objects in them.
+		simhook.Yield("gc.scanned")
 		tablesToModify := slices.Collect(maps.Keys(toBeDeleted))
 		wtxn := db.WriteTxn(tablesToModify...)
 		txn := wtxn.unwrap()
@@ -102,6 +106,7 @@ func graveyardWorker(db *DB, ctx context.Context, gcRateLimitInterval time.Durat
 			cleaningTimes[tableName] = time.Since(start)
 		}
 		wtxn.Commit()
+		simhook.Yield("gc.committed")
 
 		for tableName, stat := range cleaningTimes {
 			db.metrics.GraveyardCleaningDuration(
